@@ -8,12 +8,14 @@ import (
 	"log/slog"
 	"net"
 	"os"
+	"strings"
 	"sync"
 	"sync/atomic"
 	"time"
 
 	kmip "github.com/ovh/kmip-go"
 	"github.com/ovh/kmip-go/kmipclient"
+	"github.com/ovh/kmip-go/kmipserver"
 	"github.com/ovh/kmip-go/payloads"
 	"github.com/ovh/kmip-go/ttlv"
 
@@ -292,6 +294,132 @@ func stress(c *core.Ctx, r *core.Rand, i int) {
 	}
 }
 
+// held: the responses a client returned stay what they were while later calls use the same connection: every
+// response is kept (whole message: batch item id bytes, payload) and looked at again after all calls have returned.
+func held(c *core.Ctx, r *core.Rand, i int) {
+	srv := newEcho()
+	defer srv.Close()
+	cl := dial(srv)
+	defer cl.Close()
+	N := 1 + r.Intn(8)
+	per := 4 + r.Intn(6)
+	type kept struct {
+		id   string
+		resp *kmip.ResponseMessage
+	}
+	var mu sync.Mutex
+	var all []kept
+	var wg sync.WaitGroup
+	for g := 0; g < N; g++ {
+		wg.Add(1)
+		go func(g int) {
+			defer wg.Done()
+			for k := 0; k < per; k++ {
+				id := fmt.Sprintf("h%d-g%d-%d-%s", i, g, k, strings.Repeat("x", (g*7+k*3)%40))
+				msg := &kmip.RequestMessage{Header: kmip.RequestHeader{ProtocolVersion: kmip.V1_4, BatchCount: 1},
+					BatchItem: []kmip.RequestBatchItem{{Operation: kmip.OperationActivate, UniqueBatchItemID: []byte(id), RequestPayload: &payloads.ActivateRequestPayload{UniqueIdentifier: id}}}}
+				var resp *kmip.ResponseMessage
+				var err error
+				if p, pv, st := core.Guard(func() { resp, err = cl.Roundtrip(context.Background(), msg) }); p {
+					c.Violation(core.PanicSig(pv, st), fmt.Sprintf("Roundtrip panicked: %v", pv), map[string]any{"stack": st})
+					return
+				}
+				if err != nil || resp == nil || len(resp.BatchItem) != 1 {
+					continue
+				}
+				mu.Lock()
+				all = append(all, kept{id, resp})
+				mu.Unlock()
+			}
+		}(g)
+	}
+	wg.Wait()
+	c.Count("held_responses", int64(len(all)))
+	c.Distinct(core.Hash64("held", fmt.Sprint(N, per)))
+	for _, k := range all {
+		bi := k.resp.BatchItem[0]
+		pl, _ := bi.ResponsePayload.(*payloads.ActivateResponsePayload)
+		if string(bi.UniqueBatchItemID) != k.id || pl == nil || pl.UniqueIdentifier != k.id {
+			got := ""
+			if pl != nil {
+				got = pl.UniqueIdentifier
+			}
+			c.Violation("C10:held-response-changed", fmt.Sprintf("the response returned to call %s, looked at again after later calls on the same client, now reads batch item id %q / identifier %q: it carries another call's response",
+				k.id, bi.UniqueBatchItemID, got), nil)
+			return
+		}
+	}
+}
+
+// realServer: the client against the library's own server (in-memory listener). Now and then a call carries a
+// request larger than the server's message limit; whatever happens to that call, every call that returns a response
+// returns the response to its own request.
+func realServer(c *core.Ctx, r *core.Rand, i int) {
+	ex := kmipserver.NewBatchExecutor()
+	ex.Route(kmip.OperationActivate, kmipserver.HandleFunc(func(ctx context.Context, req *payloads.ActivateRequestPayload) (*payloads.ActivateResponsePayload, error) {
+		id := req.UniqueIdentifier
+		if len(id) > 64 {
+			id = id[:64]
+		}
+		return &payloads.ActivateResponsePayload{UniqueIdentifier: id}, nil
+	}))
+	l := memnet.Listen()
+	srv := kmipserver.NewServer(l, ex)
+	done := make(chan error, 1)
+	go func() { done <- srv.Serve() }()
+	defer func() { srv.Shutdown(); <-done }()
+	cl, err := kmipclient.Dial("mem", kmipclient.WithDialerUnsafe(func(context.Context) (net.Conn, error) { return l.Dial() }), kmipclient.EnforceVersion(kmip.V1_4))
+	if err != nil {
+		panic("harness: dial: " + err.Error())
+	}
+	defer cl.Close()
+	N := 1 + r.Intn(4)
+	var wg sync.WaitGroup
+	var hmu sync.Mutex
+	var hist []string
+	for g := 0; g < N; g++ {
+		wg.Add(1)
+		rr := core.NewRand(c.Seed, "c10-real", i, g)
+		go func(g int) {
+			defer wg.Done()
+			for k := 0; k < 10; k++ {
+				id := fmt.Sprintf("r%d-g%d-call%d", i, g, k)
+				want := id
+				if rr.P(1, 10) {
+					// larger than the server's limit (1 MiB): a legal request as far as the client is concerned
+					id = id + "-" + strings.Repeat("B", 1<<20+rr.Intn(4096))
+					want = id[:64]
+					c.Count("oversized_requests", 1)
+				}
+				var resp *payloads.ActivateResponsePayload
+				var cerr error
+				if p, pv, st := core.Guard(func() { resp, cerr = cl.Activate(id).ExecContext(context.Background()) }); p {
+					c.Violation(core.PanicSig(pv, st), fmt.Sprintf("client call panicked: %v", pv), map[string]any{"stack": st})
+					return
+				}
+				c.Count("real_server_calls", 1)
+				hmu.Lock()
+				if cerr != nil {
+					hist = append(hist, fmt.Sprintf("%s -> err %v", want, cerr))
+				} else {
+					hist = append(hist, fmt.Sprintf("%s -> %q", want, resp.UniqueIdentifier))
+				}
+				h := append([]string{}, hist...)
+				hmu.Unlock()
+				if cerr == nil && resp.UniqueIdentifier != want {
+					if len(h) > 14 {
+						h = h[len(h)-14:]
+					}
+					c.Violation("C10:misdelivery:real-server", fmt.Sprintf("call %s returned the response to request %q (library server, some requests above its size limit)", want, resp.UniqueIdentifier), map[string]any{"recent_calls": h})
+					return
+				}
+			}
+		}(g)
+	}
+	wg.Wait()
+	c.Distinct(core.Hash64("real-server", fmt.Sprint(hist)))
+}
+
 func Spec() *core.Spec {
 	slog.SetDefault(slog.New(slog.NewTextHandler(io.Discard, nil)))
 	return &core.Spec{
@@ -301,9 +429,9 @@ func Spec() *core.Spec {
 		Rule: "every call carries a unique id that a scripted in-memory server echoes, so each returned response identifies the request it answers (no ambiguity to search over). " +
 			"Directed sequences on one client: each call under a cancellation plan {none, before send, at the hooked point after loading the tx channel, at the hooked point between send and recv with the response held back and released late, " +
 			"while the server holds the response, 2 ms deadline}, always followed by further calls; stress: 2..32 goroutines sharing one client, 6 calls each with seeded plans (race detector on). " +
-			"a plan where the server writes a server-to-client request ahead of the response; a plan where the Write that delivered the request reports an error; distinct = distinct call histories (ids, plans, outcomes in completion order)",
+			"a plan where the server writes a server-to-client request ahead of the response; a plan where the Write that delivered the request reports an error; the client against the library server with requests above its size limit mixed in; whole responses kept by their callers and re-read after all later calls; distinct = distinct call histories (ids, plans, outcomes in completion order)",
 		Assumptions: []string{"cancellation instants are placed by the verif hooks client.send.loaded and client.roundtrip.sent, which sit where the scheduler may preempt anyway"},
-		Required:    []string{"calls", "calls_returning_response", "calls_returning_error", "cancel.before-send", "cancel.at-send-loaded", "cancel.between-send-and-recv", "cancel.while-server-holds", "hook.client.roundtrip.sent", "stress_rounds", "server_pushes", "calls.server-push-before-response", "write_errors_after_flush"},
+		Required:    []string{"calls", "calls_returning_response", "calls_returning_error", "cancel.before-send", "cancel.at-send-loaded", "cancel.between-send-and-recv", "cancel.while-server-holds", "hook.client.roundtrip.sent", "stress_rounds", "server_pushes", "calls.server-push-before-response", "write_errors_after_flush", "held_responses", "oversized_requests", "real_server_calls"},
 		Shards:      func(string) int { return 8 },
 		Families: []core.Family{
 			{Name: "directed", N: func(tier string) int {
@@ -312,6 +440,18 @@ func Spec() *core.Spec {
 				}
 				return 200
 			}, Run: directed, Timeout: 30 * time.Second},
+			{Name: "real-server", N: func(tier string) int {
+				if tier == core.Thorough {
+					return 1500
+				}
+				return 40
+			}, Run: realServer, Timeout: 90 * time.Second},
+			{Name: "held", N: func(tier string) int {
+				if tier == core.Thorough {
+					return 4000
+				}
+				return 60
+			}, Run: held, Timeout: 60 * time.Second},
 			{Name: "stress", N: func(tier string) int {
 				if tier == core.Thorough {
 					return 10000
